@@ -72,6 +72,11 @@ CLAIMED.update({
              text="Decides (index tables only, no numerics): cross product component table; homogenized; every accumulate/inner_product skips exactly the elements that form its initial value; scalar compound operators apply `e op= s` with the parameter itself; vector compound operators combine component i with component i over [0,DIM); binary operators defer to the compound ones; min/max family uses the named operation over the full extent; vector/barycenter/normal shapes incl. the circulator that delivers each vertex once. Not decided: numerical results, rounding, stream I/O.",
              design="3/C19"),
 })
+CLAIMED.update({
+ "C06": dict(technique="static analysis: table agreement - writer/reader primitive-operation sequences, the published Kaitai description (parsed on every run), byte-order pairs, width thresholds, sibling readers, ASCII type-name tables, codec registry, pending-deletion guards, type-detection loops",
+             text="Decides the agreement clauses: per structure identical write/read operation sequences and ovmb_size; equality with the .ksy field sequences, magic/reserved contents and enum tables; little-endian byte pairs on both sides; suitable_int_encoding thresholds = limits of the narrowed types and each chunk's encoding chosen from the count of the kind it writes; all three topology readers add handle_offset; typeName specialisations <-> readProperty branches with the same T, entity strings; unique codec names with matching T; every writer refuses pending deletions before its first output; type detection looks at all faces and all cells. Not decided: value equality after a round trip, floating-point printing.",
+             design="3/C06"),
+})
 NOT_YET = {}
 NA = {
  "C10": "soundness/completeness of the lookup queries against a brute-force search is an equality over runtime values of small search loops; no structural necessary condition exists that is not a brittle proxy (DESIGN 3/C10)",
